@@ -25,7 +25,20 @@ def collect(pid):
         reg, specs = resolver.build()
         want = G7 if pid == "C07" else G8
         seq_props.collect_specs(res, [s for s in specs if s.name in want])
-        for name, hyps, goal in resolver.lemma_obligations():
+        if pid == "C07":
+            # the relative round trip is spelled from Walker.walk(m, n): its contract (C15: the unique simple path, by identity)
+            # is part of what the sentence rests on and is discharged here as well
+            from . import c15
+            from contracts import mixins, walker
+            wf = walker.build(mixins.families()[0])
+            for key in (("walk", "static"), (wf.attr("__calc_common"), "static")):
+                fi, obl, fails = heapworld.verify_spec(wf.specs[key])
+                if fi is not None:
+                    res.functions.append({"function": fi.ident, "sha256_16": fi.sha, "dropped_decorators": fi.decorators, "obligations": len(obl)})
+                res.struct += fails
+                res.obligations += obl
+        lemmas = resolver.lemma_obligations() + (reg.glob_lemmas() if pid == "C08" else [])
+        for name, hyps, goal in lemmas:
             res.obligations.append(Obligation("spec-functions(resolver)/" + name, "LEMMA", hyps, goal, {pid}))
         for o in res.obligations:
             o.props = set(o.props) | {pid}
@@ -38,9 +51,11 @@ def bounded_part(pid, tier):
         out = driver.harness_json("resolver.py", "search", spec, timeout=6000)
         what = ("round-trip sentence (get(m, absolute path of n) is n; get(m, Walker-spelled relative path) is n) and the agreement of "
                 "the code-level specification with the statement's component semantics" if pid == "C07" else
-                "strict mode of Resolver.__glob / __find (which errors are raised or swallowed: dead-end rule, agreement with get on "
-                "wildcard-free paths), the pre-order / duplicate-freeness reading of the relaxed denotation GL, cache histories end to "
-                "end, and the assumed `re` axioms (relaxed mode itself is proved: result = GL, nothing raised)")
+                "agreement of strict glob with get on wildcard-free paths (same node first, same error class), the pre-order / "
+                "duplicate-freeness reading of the denotation GL, cache histories end to end, deep patterns (4 components over "
+                "'..', '*', '**'), and the assumed `re` axioms.  Proved, not bounded: in both modes a returned list is GL; relaxed mode "
+                "raises nothing; strict mode raises only from a raise statement that is under its dead-end condition ('..' at the "
+                "root, literal component no child matches, root component), and whenever it raises GL is empty (sibling-unique names)")
         res.bounded.append({"what": "BOUNDED stand-in (never counted as proved): " + what, "bound": json.dumps(spec) +
                             " - all ordered trees up to `nodes` nodes x 3 name sets (incl. regex metacharacters, case variants, "
                             "duplicates) x 2 separators/path attributes x paths of up to `comps` components over 15 components x "
